@@ -29,6 +29,11 @@ Real code (run over harness.fakecourier, virtual clock):
                  points; the composite operations are programs of the product LTS (controller `Ctl` of Model/OwnerEnv.lean: the
                  spin loops are loops whose exits are clock / environment choices), compared step by step like family 'sched'
                  (labels, enabled sets, registry, results, final state); max_parallelism in {1, 2}.
+  family 'scheda' (round 6): orchestrate.as_completed under the scheduler as the OBSERVED SCRIPT of its primitive operations: every
+                 pool-level call made by the body of as_completed (pool.workers, next_idle_worker with the actual worker order,
+                 release_all(unused), acquired_workers, task.is_alive, worker.submit, the final release_all()) is logged and preceded by
+                 a marker yield (harness/lib_owner.py: install_as_completed_probes), the callee runs unchanged; the schedule is replayed
+                 on the product LTS with that script; a finished as_completed must have logged the finaliser last; oracle as for run.
 Model: lean/MlModel/Model/Registry.lean, Owner.lean, OwnerEnv.lean; theorems: lean/MlModel/Properties/C20.lean.
 `extra`: exhaustive exploration of all interleavings of small configurations of the Owner LTS in the Lean
 driver (a *test* of the model / theorem hypotheses), the racy orders of F13 / F14 executed by hand on the
@@ -61,6 +66,9 @@ TRUSTED = [
     'and the done() polls of courier_worker.wait as BLOCKING yields (the stutter-free equivalent of the two waits); time.time() of '
     'courier_utils.py is fused into the step; max_parallelism in {1, 2}; the base script of pieces is a prophecy discovered by the '
     'driver and re-checked on the pure xstep? in a second pass',
+    'family scheda: the control flow of orchestrate.as_completed (which pool-level call comes next, with which worker order) is OBSERVED, '
+    'not modelled: class-level probes active only for calls whose caller frame is as_completed log the call and yield a marker; '
+    'orchestrate.time.sleep is fused',
 ]
 ASSUMPTIONS = [
     'times are integral ticks of a virtual clock; thresholds in {100, 180, 400}',
@@ -86,6 +94,9 @@ RULE = ('live: small-exhaustive event sequences (length<=3 quick / <=4 thorough)
         '0-2 other pool threads (other pools: sched operations; same pool: release_all / call / idle_workers), 1-3 environment threads '
         '(die / revive / send / deliver late or failed / tick up to 200 s, so that the 180 s deadlines and the heartbeat threshold are crossed), '
         '1-3 workers with max_parallelism 1-2, schedule as in sched, cut after 1200 steps (spin loops); '
+        'scheda: thread 0 consumes as_completed over 0-4 tasks (ok / raising; all results, or k then close, or closed unstarted; '
+        'ignore_failures on / off), other pools compete, the same pool may be driven by a non-acquiring second thread, environment as in '
+        'schedc with mostly short ticks and a transport thread of 40-120 deliveries; '
         'distinct = distinct canonical case JSON')
 
 THRS = [100, 180, 400]
